@@ -7,7 +7,12 @@
 (* is accepted iff                                                         *)
 (*   - the process survived: no signal (out-of-bounds access under ASan,   *)
 (*     wild pointer, arithmetic fault), no watchdog timeout (unbounded      *)
-(*     loop); an orderly error return of the handler is fine;              *)
+(*     loop);                                                              *)
+(*   - no datagram made the handler return a negative value: the main      *)
+(*     loops of the listeners that handle one datagram per call (ACF-CAN,  *)
+(*     CVF, AAF, CRF) leave on a negative return, i.e. the listener        *)
+(*     terminates and never processes the next datagram ("fatal" = 1);     *)
+(*     a non-negative return (datagram dropped) is fine;                   *)
 (*   - every datagram of the sequence was handled (done = n);              *)
 (*   - if the sequence ends with the well-formed datagram, it was handled  *)
 (*     exactly as when delivered alone (the listener is still usable).     *)
@@ -18,6 +23,7 @@ VARIABLE l
 Safe(ev) ==
   /\ ev.e = "seq"
   /\ ev.status = "ok"
+  /\ ev.fatal = 0
   /\ ev.done = ev.n
   /\ (ev.lastgood = 1 => ev.last = ev.alone)
 TInit == l = 1
